@@ -1,4 +1,6 @@
 """C34 — one Hy name, one Python identifier: R-ID-MANGLE at every identifier sink."""
+CANON = True
+
 import ast
 
 from .. import compq, idflow, pyq
